@@ -977,6 +977,14 @@ class OdeSystem(object):
         steps = 0
 
         events, is_terminal, direction, last_occurrence, requires_dstate = prepare_events(events, self.__y[0])
+        if events is not None:
+            # an event recorded by an earlier call is still the last occurrence of its function:
+            # a crossing that sits on the boundary between two calls is not reported a second time
+            for __ev_idx, __ev in enumerate(events):
+                for __rec_idx in range(len(self.__events) - 1, -1, -1):
+                    if self.__events[__rec_idx].event is __ev:
+                        last_occurrence[__ev_idx] = __rec_idx
+                        break
 
         implicit_integration = False
         if D.ar_numpy.to_numpy(tf) == np.inf:
